@@ -122,7 +122,17 @@ func (a *Affiliation) computeTriggersForCastingSites(pass *analysishelper.Enhanc
 				}
 			}
 
-			ast.Inspect(decl, func(n ast.Node) bool {
+			// funcResults are the declared results of the innermost function (declaration or literal) that
+			// encloses the visited node; they are needed for return statements.
+			var funcResults *types.Tuple
+			if f != nil {
+				if fdecl, ok := pass.TypesInfo.Defs[f.Name].(*types.Func); ok {
+					funcResults = fdecl.Type().(*types.Signature).Results()
+				}
+			}
+
+			var visit func(n ast.Node) bool
+			visit = func(n ast.Node) bool {
 				switch node := n.(type) {
 				case *ast.AssignStmt:
 					// special case of n-to-1 assignment from a function with multiple returns: e.g., i1, i2 = foo(), where foo() return s1, s2
@@ -221,8 +231,7 @@ func (a *Affiliation) computeTriggersForCastingSites(pass *analysishelper.Enhanc
 					// Note that the declared result types must be taken from the signature rather than
 					// from the AST field list `f.Type.Results.List`: a single field can declare several
 					// results (e.g., `func m() (a, b I)`), so the fields are not indexed by result position.
-					if fdecl, ok := pass.TypesInfo.Defs[f.Name].(*types.Func); ok {
-						funcSigResults := fdecl.Type().(*types.Signature).Results()
+					if funcSigResults := funcResults; funcSigResults != nil {
 						for i := range node.Results {
 							if i < funcSigResults.Len() {
 								lhsType := funcSigResults.At(i).Type()
@@ -236,8 +245,7 @@ func (a *Affiliation) computeTriggersForCastingSites(pass *analysishelper.Enhanc
 					// tuple type, for which the loop above finds nothing)
 					if len(node.Results) == 1 {
 						if rhsSig, ok := pass.TypesInfo.TypeOf(node.Results[0]).(*types.Tuple); ok {
-							if fdecl, ok := pass.TypesInfo.Defs[f.Name].(*types.Func); ok {
-								funcSigResults := fdecl.Type().(*types.Signature).Results()
+							if funcSigResults := funcResults; funcSigResults != nil {
 								for i := 0; i < rhsSig.Len() && i < funcSigResults.Len(); i++ {
 									appendTypeToTypeTriggers(funcSigResults.At(i).Type(), rhsSig.At(i).Type())
 								}
@@ -304,13 +312,22 @@ func (a *Affiliation) computeTriggersForCastingSites(pass *analysishelper.Enhanc
 						}
 					}
 				case *ast.FuncLit:
-					// TODO: Nilability analysis support for anonymous functions is currently not
-					//       implemented (tracked in issue #52), so here we completely skip
-					//       the affiliation analysis for them.
+					// The casting sites in the body of a function literal are collected as well: they link an
+					// implementation to an interface no matter whether the nilability analysis of the body
+					// itself is enabled (anonymous function support is tracked in issue #52), e.g.,
+					// `func() { foo(&S{}) }` passes an `S` to the named function `foo(i I)`. The return
+					// statements of the body are matched against the results of the literal.
+					if sig, ok := pass.TypesInfo.TypeOf(node).(*types.Signature); ok {
+						outerResults := funcResults
+						funcResults = sig.Results()
+						ast.Inspect(node.Body, visit)
+						funcResults = outerResults
+					}
 					return false
 				}
 				return true
-			})
+			}
+			ast.Inspect(decl, visit)
 		}
 	}
 }
